@@ -405,6 +405,11 @@ class Interp(Engine):
                     if not self.spec_mode:
                         self.type_ob(st, val_sort().is_vobj(v.term), "object", node)
                     return self.getattr(st, obj, attr, node)
+        if isinstance(k, KList) and attr == "size":
+            # numpy-lite: 1-D arrays are modelled as lists (a plain list has no .size: AttributeError not modelled)
+            from . import lib
+            lib.USED.add("ndarray.size")
+            return SV(KInt, self.list_len(st, v))
         if isinstance(k, (KList, KDict, KSet)) or k is KStr or k is KVal or k is KFloat or k is KInt:
             return SV(KConst, None, const=BoundMethod(v, attr, None))
         if isinstance(k, KOpt):
@@ -764,7 +769,10 @@ class Interp(Engine):
         arr = st.fresh("slc", z3.ArraySort(z3.IntSort(), sort_of(v.kind.elem)))
         ea = self.harr(st, e)
         i = z3.Int("slc_i")
-        self.assume(st, qforall([i], arr[i] == ea[v.term][lo + i], patterns=[arr[i]]))
+        row = z3.simplify(ea[v.term])
+        self.assume(st, qforall([i], arr[i] == row[lo + i], patterns=[arr[i]]))
+        # the same fact indexed from the source side (so that a known source element finds its slice position)
+        self.assume(st, qforall([i], arr[i - lo] == row[i], patterns=[row[i]]))
         st.heap[eo] = z3.Store(self.harr(st, eo), out.term, arr)
         out.guard = None
         st.ghost.setdefault("slices", {})[id(out)] = (v, lo)
